@@ -5,6 +5,7 @@ package main
 
 import (
 	"bytes"
+	"crypto/md5"
 	"crypto/sha256"
 	"fmt"
 	"google.golang.org/protobuf/encoding/protowire"
@@ -274,6 +275,24 @@ func randSquareCase(c *Ctx, r *Rng, ordered, tight bool) sqCase {
 				c.count("non_canonical_blob_tx")
 			}
 		}
+	}
+	if tight && !ordered && r.Intn(9) == 0 {
+		// ordinary transactions that end EXACTLY on a compact share boundary (>= 1 full share), then one of at
+		// least a whole share that no longer fits (refused), then small ones that do
+		max = pick(r, []int{2, 4})
+		k := 1 + r.Intn(max*max-1) // shares filled exactly
+		var l []genTx
+		first := alignedTxLen(0, 474+478*(k-1)-2, 0)
+		if k > 1 && r.Bool(50) {
+			a := 100 + r.Intn(300)
+			l = append(l, genTx{raw: r.Bytes(a)})
+			first = alignedTxLen(a+len(uvarint(uint64(a))), 474+478*(k-1)-a-4, 0)
+		}
+		l = append(l, genTx{raw: r.Bytes(first)})
+		l = append(l, genTx{raw: r.Bytes(478*(max*max-k) + 100 + r.Intn(600))}) // too large for what is left
+		l = append(l, genTx{raw: r.Bytes(1 + r.Intn(200))}, genTx{raw: r.Bytes(1 + r.Intn(200))})
+		txs = l
+		c.count("exact_fill_then_refused_large")
 	}
 	if tight && !ordered && r.Intn(6) == 0 {
 		// refused appends whose wrapped PFB (or ordinary tx) would still fit the open compact share:
@@ -606,6 +625,11 @@ func genC03(c *Ctx) {
 func genC04(c *Ctx) {
 	shortInner = true
 	defer func() { shortInner = false }()
+	defer func() {
+		for i := 0; i < 25*c.scale; i++ {
+			liveBuilderHistory(c, c.rng, randSquareCase(c, c.rng, false, false), "Builder (live)")
+		}
+	}()
 	c.rule = "constructed squares over ordered lists with several blobs (equal and different namespaces, versions 0/1, boundary lengths); every (blob tx, blob): recorded index vs verbatim shares, alignment, disjointness and order, BlobShareRange incl. out-of-range indexes; non-trivial = distinct case with >= 2 blobs"
 	r := c.rng
 	for i := 0; i < 160*c.scale; i++ {
@@ -959,6 +983,11 @@ func shareOfOffset(p int) int {
 func genC12(c *Ctx) {
 	shortInner = true
 	defer func() { shortInner = false }()
+	defer func() {
+		for i := 0; i < 25*c.scale; i++ {
+			liveBuilderHistory(c, c.rng, randSquareCase(c, c.rng, false, false), "Builder (live)")
+		}
+	}()
 	c.rule = "ordered lists (as kept by greedy builds) with tx sizes ending exactly on share ends and PFBs one varint byte shorter than the worst case; TxShareRange for every index -2..len+1 vs the set of shares holding a byte of the unit (recomputed from stream offsets over the real wrapped PFBs), ParseTxs of exactly that range, splitter ShareRanges; non-trivial = distinct (case, index) spanning or starting after the first share"
 	r := c.rng
 	for i := 0; i < 150*c.scale; i++ {
@@ -1157,9 +1186,43 @@ func genC14(c *Ctx) {
 			c.mark("splitter " + shape)
 		}
 	}
+	for _, h := range boundaryExportHistories(r) {
+		runSplitterHistory(c, pick(r, [][]byte{txNs, pfbNs}), h, "CompactShareSplitter")
+	}
+	for i := 0; i < 15*c.scale; i++ {
+		liveBuilderHistory(c, r, randSquareCase(c, r, false, false), "Builder (live)")
+	}
 	// builder half
 	for i := 0; i < 140*c.scale; i++ {
 		s := randSquareCase(c, r, false, true)
+		if i%7 == 3 {
+			// accepted one-blob transactions whose worst-case wrapped PFB ends 1 or 2 bytes past the first
+			// compact share (so its real size, with 1-2 byte indexes, does not), an export or query, then a
+			// blob transaction refused for its blob, then more accepted ones
+			nss := blobNamespaces(r, 2)
+			worst := []uint32{16384}
+			inner := 300
+			target := 475 + r.Intn(2)
+			for it := 0; it < 8; it++ {
+				w := len(refDelimited(refIndexWrapper(make([]byte, inner), worst)))
+				if w == target {
+					break
+				}
+				inner -= w - target
+			}
+			mkSmall := func(in int) genTx {
+				b := randBlob(r, nss, 100)
+				b.data = r.Bytes(1 + r.Intn(300))
+				bl := []genBlob{b}
+				return genTx{raw: blobTxWithInner(r.Bytes(in), bl), blobs: bl}
+			}
+			big := randBlob(r, nss, 100)
+			big.ver, big.signer = 0, nil
+			big.data = r.Bytes(8*8*482 + 100)
+			bigl := []genBlob{big}
+			s = sqCase{max: 8, thr: 64, txs: []genTx{mkSmall(inner), {raw: blobTxWithInner(r.Bytes(100+r.Intn(200)), bigl), blobs: bigl}, mkSmall(60 + r.Intn(200)), mkSmall(60 + r.Intn(300))}}
+			c.count("pfb_one_byte_past_boundary_then_refusal")
+		}
 		var ops []string
 		between := false
 		for j, t := range s.txs {
@@ -1391,6 +1454,43 @@ func genC20(c *Ctx) {
 			c.check(ok && len(seqs) == want, "ParseShares(ignorePadding)", "not exactly the tx sequence, the PFB sequence and one sequence per blob in square order with payload = blob data", wit)
 			if len(pl) > 0 {
 				c.mark(s.shape())
+			}
+			// the same square as views of ONE flat buffer: parse, read every payload, then parse and read again -
+			// the second pass must see the same square (a payload read that writes behind its first share would not)
+			flat := make([]byte, 0, 512*len(sq)+700)
+			for _, sh := range sq {
+				flat = append(flat, sh.ToBytes()...)
+			}
+			views := make([][]byte, len(sq))
+			for k := range sq {
+				views[k] = flat[512*k : 512*(k+1)]
+			}
+			if fsq, err := share.FromBytes(views); err == nil {
+				okFlat := true
+				var firstPass []string
+				for pass := 0; pass < 2 && okFlat; pass++ {
+					fs, err := share.ParseShares(fsq, true)
+					if err != nil {
+						okFlat = false
+						break
+					}
+					for k2, q := range fs {
+						d, err := q.RawData()
+						sig := fmt.Sprintf("%x:%d:%x", q.Namespace.Bytes(), len(q.Shares), md5.Sum(d))
+						if err != nil {
+							okFlat = false
+						}
+						if pass == 0 {
+							firstPass = append(firstPass, sig)
+						} else if k2 >= len(firstPass) || firstPass[k2] != sig {
+							okFlat = false
+						}
+					}
+				}
+				for k := range sq {
+					okFlat = okFlat && bytes.Equal(views[k], sq[k].ToBytes())
+				}
+				c.check(okFlat, "ParseShares/RawData on one flat buffer", "reading the sequence payloads changed the square or a second parse differs", wit)
 			}
 		}
 	}
